@@ -16,6 +16,7 @@ Nothing here is a model taken from ioflo: the generator's own description of a
 reference (``ref['kind']``) says what it is relative to.
 """
 import copy
+import random as _random
 
 from ioflo.base import doing, framing, storing, acting
 
@@ -305,8 +306,9 @@ def gen_need(rng, is_main, frames):
         # `is updated` / `is changed` on a share the driver writes: the mark behind it belongs to this framer (this clone) alone,
         # whatever tag other clones of the same moot carry.  (Only in cases without rear: a mark remembers the past, and the
         # stand-in of a reared clone has a longer past than the clone.)
-        return {"mark": rng.choice(["updated", "changed"]), "ref": ref("abs", rng.choice(CSH)),
-                "inframe": rng.random() < 0.4}
+        kind, share, r_in = rng.choice(["updated", "changed"]), rng.choice(CSH), rng.random()
+        # an explicit `by <mark>` names the mark; it is still this framer's (this clone's) own
+        return {"mark": kind, "ref": ref("abs", share), "inframe": r_in < 0.4, "by": "mk" if int(r_in * 1000) % 3 == 0 else None}
     if r < 0.3:
         return {"ref": ref("abs", rng.choice(CSH)), "op": rng.choice(["==", "!=", ">=", "<"]), "val": rng.randint(0, 2)}
     if r < 0.45:
@@ -426,7 +428,24 @@ def gen_moot(rng, name, later, budget, uniq, with_me=True, with_main=True):
                 far = rng.choice(names)
             needs = [gen_need(rng, not with_main, names) for _ in range(1 if rng.random() < 0.75 else 2)]
             st.append({"k": "go", "far": far, "needs": needs})
+        # a goal of the framer's own (`set elapsed with 0.25` writes framer.me.goal.elapsed) and a transition that waits
+        # for it (`if elapsed >= goal`): in a clone both sides are the clone's.  Drawn from a generator of its own so
+        # that everything else of the case stays what it was.
+        _st = rng.getstate()[1]
+        r2 = _random.Random(repr((_st[0], _st[1], _st[-1], f["name"])))
+        if r2.random() < 0.3:
+            clock = r2.choice(["elapsed", "recurred"])
+            st.insert(0, {"k": "goal", "clock": clock, "val": r2.choice([0.25, 0.375, 0.5]) if clock == "elapsed" else r2.choice([2, 3, 4])})
+            far = r2.choice([n for n in names if n != f["name"]] or names)
+            firstgo = min(i for i, x in enumerate(st) if x["k"] == "go")       # among the transitions at the end of the frame
+            st.insert(r2.randint(firstgo, len(st)), {"k": "go", "far": far, "needs": [{"clock": clock, "op": ">=", "val": "goal"}]})
         f["stmts"] = st
+    # like the counters, the goals start from a known value whenever the framer is entered at its root (a share outlives
+    # a razed clone, and a stand-in outlives several clones)
+    used = sorted(set(x["clock"] for f in frames for x in f["stmts"] if x["k"] == "goal"))
+    rootf = [f for f in frames if f["name"] == root][0]
+    for clock in used:
+        rootf["stmts"].insert(0, {"k": "goal", "clock": clock, "val": 0})
     if rng.random() < 0.6:
         f = rng.choice(frames)
         f["stmts"].insert(len(f["stmts"]) - 1 if f["stmts"] and f["stmts"][-1]["k"] == "go" else len(f["stmts"]),
@@ -596,15 +615,21 @@ def stmt_refs(s):
         for n in s["needs"]:
             if "clock" in n:
                 out.append({"kind": "clock", "leaf": n["clock"], "frame": None})
+                if n["val"] == "goal":          # the framer's own goal share is the other operand
+                    out.append({"kind": "clock", "leaf": "goal." + n["clock"], "frame": None})
             else:
                 out.append(n["ref"])
         return out
+    if s["k"] == "goal":
+        return [{"kind": "clock", "leaf": "goal." + s["clock"], "frame": None}]
     return []
 
 
 def stmt_ctx(s):
     if s["k"] == "go":
         return "precur"
+    if s["k"] == "goal":
+        return "enter"
     if s["k"] in ("aux", "rec", "rear", "raze", "done"):
         return None
     return s["ctx"]
@@ -679,9 +704,10 @@ def ref_text(r, env):
 
 def need_text(n, env):
     if "mark" in n:
-        return "%s is %s%s" % (ref_text(n["ref"], env), n["mark"], " in frame" if n.get("inframe") else "")
+        return "%s is %s%s%s" % (ref_text(n["ref"], env), n["mark"], " in frame" if n.get("inframe") else "",
+                                 " by %s" % n["by"] if n.get("by") else "")
     if "clock" in n:
-        return "%s %s %s" % (n["clock"], n["op"], lit(n["val"]))
+        return "%s %s %s" % (n["clock"], n["op"], "goal" if n["val"] == "goal" else lit(n["val"]))
     return "%s %s %s" % (ref_text(n["ref"], env), n["op"], lit(n["val"]))
 
 
@@ -697,6 +723,8 @@ def stmt_text(s, env, mode):
         return "go %s if %s" % (s["far"], " and ".join(need_text(n, env) for n in s["needs"]))
     if k == "done":
         return "done me"
+    if k == "goal":
+        return "set %s with %s" % (s["clock"], lit(s["val"]))
     if k == "aux":
         if s.get("plain"):
             return "aux %s" % s["plain"]
